@@ -302,4 +302,47 @@ theorem payload_error_propagates (es : List EnumDef) (sd : Nat → Bytes → DeR
 -- an option tag 2 in the *second* field of a nested struct is rejected at the top level
 example : deserializeStruct exDs exEs 3 1 [2, 0, 0] = .error .badInput := by rfl
 
+/-! ## soundness: the converse of the round trip -/
+
+/-- **`deser_sound`**: whatever `deserialize_struct` accepts matches the schema — its texts are
+valid UTF-8 without NUL, its ids have 32 bytes, its enum values are members of their definition,
+its integers are `i64`, its struct values have exactly the declared fields.  Together with the
+tag lemmas this is the global form of the rejection clauses: an input is accepted only if every
+field it contains is well-formed.  (`WFDefs`: field names of a definition are distinct.) -/
+theorem deser_sound (ds : List StructDef) (es : List EnumDef) (hwf : WFDefs ds) (fuel n : Nat)
+    (bs : Bytes) (v : Val) (h : deserializeStruct ds es fuel n bs = .ok v) :
+    fits ds es v (.struct n) = true := by
+  unfold deserializeStruct at h
+  split at h
+  · rename_i v' rest heq
+    split at h
+    · simp only [Except.ok.injEq] at h
+      subst h
+      exact deStruct_sound ds es hwf fuel n bs v' rest heq
+    · cases h
+  · cases h
+
+/-- every accepted value serializes again, and that serialization decodes back to it -/
+theorem accepted_reserializes (ds : List StructDef) (es : List EnumDef) (hwf : WFDefs ds)
+    (fuel n : Nat) (bs : Bytes) (v : Val) (h : deserializeStruct ds es fuel n bs = .ok v) :
+    ∃ fs enc, v = .struct n fs ∧ serializeStruct ds n fs = .ok enc ∧
+      deserializeStruct ds es (sdepth v) n enc = .ok v := by
+  have hf := deser_sound ds es hwf fuel n bs v h
+  cases v <;> simp [fits] at hf
+  rename_i n' fs
+  obtain ⟨hn, _⟩ := hf
+  subst hn
+  have hf' := deser_sound ds es hwf fuel n' bs _ h
+  obtain ⟨enc, hs, hd⟩ := struct_rt ds es n' fs (sdepth (.struct n' fs)) hf' (Nat.le_refl _)
+  exact ⟨fs, enc, rfl, hs, hd⟩
+
+example : WFDefs exDs := by
+  intro n items h
+  simp only [exDs, findStruct] at h
+  split at h
+  · cases h; decide
+  · split at h
+    · cases h; decide
+    · cases h
+
 end AranyaV.Serialize
